@@ -192,3 +192,35 @@ func parseRESP(p []byte) (name string, args [][]byte, err error) {
 	}
 	return string(all[0]), all[1:], nil
 }
+
+// describeDir lists the files of a data directory and the command names in its log (for violation reports).
+func describeDir(dir string) string {
+	var b []string
+	filepath.Walk(dir, func(p string, info os.FileInfo, err error) error {
+		if err == nil && !info.IsDir() {
+			rel, _ := filepath.Rel(dir, p)
+			b = append(b, fmt.Sprintf("%s(%d)", rel, info.Size()))
+		}
+		return nil
+	})
+	out := "files: " + fmt.Sprint(b)
+	if data, err := os.ReadFile(filepath.Join(dir, "kektordb.aof")); err == nil {
+		var names []string
+		for _, f := range scanFrames(data) {
+			n, args, err := parseRESP(f.Payload)
+			if err != nil {
+				names = append(names, "?")
+				continue
+			}
+			s := n
+			for i, a := range args {
+				if i < 2 && len(a) < 24 {
+					s += " " + string(a)
+				}
+			}
+			names = append(names, s)
+		}
+		out += "; log: " + fmt.Sprint(names)
+	}
+	return out
+}
